@@ -186,6 +186,24 @@ func c16(c *core.Ctx) {
 		c.Eval(1)
 		c.Distinct(uint64(i) | 8<<50)
 	})
+	// runs of one byte of every class (incl. UTF-8 continuation and lead bytes, NUL, 0xFF) at lengths around the usual
+	// buffer/limit sizes, combined with the affixes that select the parser's different exits
+	runBytes := []string{"\x80", "\xbf", "\xc3", "\xe2\x82", "\xf0", "\xff", "\x00", "a", ":", "[", "]", "%", "?", "0", ".", "@", "/", "%25"}
+	runLens := []int{63, 64, 65, 253, 254, 255, 256, 257, 258, 300, 511, 512, 513, 1023, 1025, 4097, 70000}
+	runPre := []string{"", "[", "a", "%", "[::", "a:"}
+	runSuf := []string{"", ":1", ":1:2", "::", "]", "]:1", "]:1:2", ":99999", "?transport=tcp", "%zz", ":x", "]x", "?", ":-1"}
+	c.Section("runs-with-affixes", int64(len(runBytes)*len(runLens)*len(runPre)), func(i int64, _ *gen.Rand) {
+		rb := runBytes[int(i)%len(runBytes)]
+		rest := int(i) / len(runBytes)
+		n := runLens[rest%len(runLens)]
+		pre := runPre[rest/len(runLens)]
+		for k, suf := range runSuf {
+			s := []string{"stun:", "stuns:", "turn:", "turns:"}[(int(i)+k)%4] + pre + strings.Repeat(rb, n) + suf
+			c16Call(c, s)
+			c.Eval(1)
+		}
+		c.Distinct(uint64(i) | 9<<50)
+	})
 	// random, grammar-mutated, control characters, invalid UTF-8, very long inputs
 	c.Section("random", c.N(60000, 10000000), func(i int64, r *gen.Rand) {
 		s := c16Random(r, i)
